@@ -666,6 +666,16 @@ func (fr *faultRun) exec() {
 			}
 			corner = sb.String()
 		}
+		if fr2.P(0.1) {
+			// many mapscripts statements, each with inline scripts (work that an implementation
+			// may fan out and nest: statement -> inline scripts)
+			var sb strings.Builder
+			for i, k := 0, fr2.Range(3, 9); i < k; i++ {
+				fmt.Fprintf(&sb, "mapscripts M%d { MAP_SCRIPT_ON_LOAD { a%d } MAP_SCRIPT_ON_TRANSITION { if (flag(F)) { b } } MAP_SCRIPT_ON_FRAME_TABLE [ VAR_T, %d { c } VAR_U, 1: S ] }\n", i, i, i)
+			}
+			sb.WriteString("script S { end }\n")
+			corner = sb.String()
+		}
 		if fr2.P(0.15) {
 			// a chain of constants each defined as two copies of the previous one
 			depth := fr2.Range(8, 24)
